@@ -11,12 +11,15 @@ NOT_APPLICABLE = {
 }
 # checks the coordinator has reviewed and released (a check file that exists but is not listed is work in progress)
 RELEASED = ["C01", "C02", "C05", "C06", "C07", "C08", "C09", "C10", "C11", "C12", "C13", "C14", "C15", "C16", "C17", "C18", "C19", "C20"]
+# growth modules (spec coverage beyond the listed properties): run as ./bin/check G0x, listed as engines only
+GROWTH = {"G01": ("EncMode", ["C02", "C11"]), "G02": ("FrameHdr", ["C01", "C06"]), "G03": ("Surround", ["C05", "C10"])}
 PENDING = "check not built yet in this round (see DESIGN section 10 for the build order)"
 
 
 def main():
     props = [json.loads(l) for l in open(os.path.join(ROOT, "properties.jsonl"))]
     checks, na, engines = [], [], {}
+    growth_note = []
     for p in props:
         pid = p["id"]
         try:
@@ -39,6 +42,13 @@ def main():
         checks.append(c)
         for e in meta["engine"].split("+"):
             engines.setdefault(e.strip(), []).append(pid)
+    for gid, (eng, serves) in sorted(GROWTH.items()):
+        if os.path.exists(os.path.join(HERE, "checks", gid + ".py")) and os.path.exists(os.path.join(ROOT, "spec", eng + ".tla")):
+            engines.setdefault(eng, [])
+            for pid in serves:
+                if pid not in engines[eng]:
+                    engines[eng].append(pid)
+            growth_note.append("%s (./bin/check %s)" % (eng, gid))
     hooks_commits = []
     hp = os.path.join(ROOT, "hooks_commits.txt")
     if os.path.exists(hp):
@@ -51,7 +61,7 @@ def main():
                              kind_free_text="TLA+ module checked with TLC; bound to libopus by harness traces validated by TLC")
                         for k, v in sorted(engines.items())],
                checks=checks, not_applicable=na,
-               notes="All property clauses are judged by TLC on the TLA+ modules under spec/; harness/ only executes and records. See DESIGN.md.")
+               notes="All property clauses are judged by TLC on the TLA+ modules under spec/; harness/ only executes and records. See DESIGN.md. Growth modules beyond the listed properties: " + ", ".join(growth_note) + ".")
     with open(os.path.join(ROOT, "MANIFEST.json"), "w") as f:
         json.dump(man, f, indent=1)
         f.write("\n")
